@@ -121,6 +121,7 @@ struct Inner {
     instruments: Vec<String>,
     attrs: Vec<(usize, usize)>,
     closures: Vec<String>,
+    async_blocks: Vec<String>,
     awaits: Vec<String>,
     depth_closure: usize,
 }
@@ -169,6 +170,7 @@ impl<'ast> Visit<'ast> for Inner {
         self.depth_closure -= 1;
     }
     fn visit_expr_async(&mut self, c: &'ast syn::ExprAsync) {
+        self.async_blocks.push(format!("{{\"span\":{},\"block\":{}}}", sp(br(c.span())), sp(br(c.block.span()))));
         self.depth_closure += 1;
         visit::visit_expr_async(self, c);
         self.depth_closure -= 1;
@@ -476,7 +478,7 @@ impl Top {
             })
             .collect();
         let s = format!(
-            "{{\"kind\":\"fn\",\"path\":{},\"span\":{},\"attrs\":[{}],\"vis\":{},\"sig\":{},\"ret\":{},\"where\":{},\"body\":{},\"tail\":{},\"trait_impl\":{},\"trait_def\":{},\"is_async\":{},\"params\":[{}],\"loops\":[{}],\"tries\":[{}],\"macros\":[{}],\"returns\":[{}],\"instruments\":[{}],\"closures\":[{}],\"awaits\":[{}],\"cfg\":[{}],\"cfg_nodes\":[{}],\"leaf_tails\":[{}],\"nested_items\":[{}],\"let_loops\":[{}],\"value_breaks\":[{}]}}",
+            "{{\"kind\":\"fn\",\"path\":{},\"span\":{},\"attrs\":[{}],\"vis\":{},\"sig\":{},\"ret\":{},\"where\":{},\"body\":{},\"tail\":{},\"trait_impl\":{},\"trait_def\":{},\"is_async\":{},\"params\":[{}],\"loops\":[{}],\"tries\":[{}],\"macros\":[{}],\"returns\":[{}],\"instruments\":[{}],\"closures\":[{}],\"async_blocks\":[{}],\"awaits\":[{}],\"cfg\":[{}],\"cfg_nodes\":[{}],\"leaf_tails\":[{}],\"nested_items\":[{}],\"let_loops\":[{}],\"value_breaks\":[{}]}}",
             js(&path),
             sp(br(whole)),
             all_attrs.iter().map(|a| sp(*a)).collect::<Vec<_>>().join(","),
@@ -496,6 +498,7 @@ impl Top {
             inner.returns.join(","),
             inner.instruments.join(","),
             inner.closures.join(","),
+            inner.async_blocks.join(","),
             inner.awaits.join(","),
             cfg_strs(attrs).iter().map(|d| js(d)).collect::<Vec<_>>().join(","),
             inner.cfg_nodes.join(","),
